@@ -84,6 +84,29 @@ def encRun (cfg : EncCfg) (w : WState) (ops : List EncOp) : EncState Ã— WState Ã
   | (w', true) => encRunFrom cfg ops 1 {} w'
   | (w', false) => ({}, w', some 0)
 
+/-! ### The file writer used directly (`filewriter.go`: `WriteHeader`, `WriteBlock`)
+
+`WriteBlock(w, rowCount, block)` accepts any row count, including 0 with an empty block (an empty block is legal in a
+container); the Encoder never issues such a call, a program using `FileWriter` itself can. -/
+
+inductive FwOp where
+  | header
+  | block (rows : Nat) (data : Bytes)
+  deriving Repr
+
+/-- one call: `WriteHeader` is one `Write`, `WriteBlock` the four of `blockChunks`, each checked at once -/
+def fwStep (cfg : EncCfg) (w : WState) : FwOp â†’ WState Ã— Bool
+  | .header => w.writeAll [cfg.header]
+  | .block n d => w.writeAll (blockChunks cfg n d)
+
+/-- Runs the calls in order until one returns an error; returns the index of that call. -/
+def fwRunFrom (cfg : EncCfg) : List FwOp â†’ Nat â†’ WState â†’ WState Ã— Option Nat
+  | [], _, w => (w, none)
+  | op :: ops, i, w =>
+    match fwStep cfg w op with
+    | (w', true) => fwRunFrom cfg ops (i + 1) w'
+    | (w', false) => (w', some i)
+
 /-! ### Reference partition (written from the property statement, not from the code) -/
 
 /-- `specPart bs ops pend`: the blocks (each a list of record encodings) that must have been
